@@ -157,6 +157,7 @@ func probe(req *conformancev1.ClientCompatRequest) string {
 			return "tls-config-error: " + err.Error()
 		}
 		conf.NextProtos = []string{"h3"}
+		conf.ServerName = req.Host
 		ctx, cancel := context.WithTimeout(context.Background(), 3*time.Second)
 		defer cancel()
 		c, err := quic.DialAddr(ctx, addr, conf, &quic.Config{})
@@ -179,6 +180,7 @@ func probe(req *conformancev1.ClientCompatRequest) string {
 	if err != nil {
 		return "tls-config-error: " + err.Error()
 	}
+	conf.ServerName = req.Host // (net/http derives it from the URL; a bare tls.Client must be told)
 	if req.HttpVersion == conformancev1.HTTPVersion_HTTP_VERSION_2 {
 		conf.NextProtos = []string{"h2"}
 	} else {
@@ -418,7 +420,7 @@ func loggingServer(ctx context.Context, sc *script, req *conformancev1.ServerCom
 	rpcs := 0
 	die := make(chan struct{})
 	handler := http.HandlerFunc(func(w http.ResponseWriter, r *http.Request) {
-		_, _ = io.Copy(io.Discard, r.Body)
+		// (answer before consuming the body: a full-duplex client waits for a response between its messages)
 		peer := ""
 		if r.TLS != nil && len(r.TLS.PeerCertificates) > 0 {
 			peer = r.TLS.PeerCertificates[0].Subject.CommonName
@@ -433,6 +435,9 @@ func loggingServer(ctx context.Context, sc *script, req *conformancev1.ServerCom
 		w.Header().Set("Content-Type", "application/json")
 		w.WriteHeader(http.StatusServiceUnavailable)
 		_, _ = w.Write([]byte(`{"code":"unavailable","message":"verifpeer logging server"}`))
+		if f, ok := w.(http.Flusher); ok {
+			f.Flush()
+		}
 		if sc.DieAfterRPCs >= 0 && n >= sc.DieAfterRPCs {
 			select {
 			case <-die:
